@@ -29,7 +29,7 @@ open Unyt
 /-- the rule functions that occur as values of `unyt_array._ufunc_registry` -/
 inductive Rule
   | preserve | difference | multiply | divide | power | sqrt | cbrt | square | reciprocal
-  | passthrough | withoutUnit | arctan2 | comparison | bitop | invert
+  | passthrough | withoutUnit | arctan2 | comparison | bitop | invert | floorDivide
 deriving DecidableEq, Repr, Inhabited
 
 /-- the Python name of the rule function -/
@@ -40,10 +40,11 @@ def Rule.pyName : Rule → String
   | .reciprocal => "_reciprocal_unit" | .passthrough => "_passthrough_unit"
   | .withoutUnit => "_return_without_unit" | .arctan2 => "_arctan2_unit"
   | .comparison => "_comparison_unit" | .bitop => "_bitop_units" | .invert => "_invert_units"
+  | .floorDivide => "_floor_divide_units"
 
 def Rule.all : List Rule :=
   [.preserve, .difference, .multiply, .divide, .power, .sqrt, .cbrt, .square, .reciprocal,
-   .passthrough, .withoutUnit, .arctan2, .comparison, .bitop, .invert]
+   .passthrough, .withoutUnit, .arctan2, .comparison, .bitop, .invert, .floorDivide]
 
 def Rule.ofName (s : String) : Option Rule := Rule.all.find? fun r => r.pyName == s
 
@@ -55,6 +56,11 @@ def ruleOf (ufunc : String) : Option Rule :=
 
 /-- `unit_operator in (_preserve_units, _comparison_unit, _arctan2_unit, _difference_units)` -/
 def Rule.converts (r : Rule) : Bool := Generated.C04.convRules.contains r.pyName
+
+/-- `if unit_operator is X and not u0.same_dimensions_as(u1): unit_operator = Y` (regenerated): the rule
+    actually applied — floor-division of incommensurable operands falls back to the quotient rule -/
+def Rule.effective (r : Rule) (incommensurable : Bool) : Rule :=
+  if incommensurable then ((Generated.C04.ruleSwaps.lookup r.pyName).bind Rule.ofName).getD r else r
 
 /-- `unit_operator in (_multiply_units, _divide_units)` -/
 def Rule.postMul (r : Rule) : Bool := Generated.C04.postMulRules.contains r.pyName
@@ -224,7 +230,7 @@ def unaryRule (ueq : UnitV K → UnitV K → Bool) (pre : Prefixes K) (t : Lut K
   | .reciprocal => (u.pow (-1)).map fun v => (1, some v)
   | .square => (u.mul u).map fun v => (1, some v)
   -- binary rule functions called with one argument, and the refusing rules
-  | .multiply | .divide | .power | .arctan2 | .bitop | .invert => .error .TypeError
+  | .multiply | .divide | .power | .arctan2 | .bitop | .invert | .floorDivide => .error .TypeError
 
 /-- a rule function called with two units: `unit_operator(u0, u1)` — `(mul, unit or None)` -/
 def binaryRule (ueq : UnitV K → UnitV K → Bool) (pre : Prefixes K) (t : Lut K) (r : Rule) (u0 u1 : UnitV K) :
@@ -234,6 +240,8 @@ def binaryRule (ueq : UnitV K → UnitV K → Bool) (pre : Prefixes K) (t : Lut 
   | .difference => (differenceUnits ueq pre t u0 (some u1)).map fun p => (p.1, some p.2)
   | .comparison | .withoutUnit => .ok (1, none)
   | .arctan2 => .ok (1, some UnitV.dimensionless)
+  -- `_floor_divide_units`: a pure number (the dispatcher has rescaled the divisor)
+  | .floorDivide => .ok (1, some UnitV.dimensionless)
   | .passthrough => .ok (1, some u0)
   | .multiply => (multiplyUnits pre t u0 u1).map fun p => (p.1, some p.2)
   | .divide => (divideUnits pre t u0 u1).map fun p => (p.1, some p.2)
@@ -315,6 +323,8 @@ def dispatchBinary (ueq : UnitV K → UnitV K → Bool) (pre : Prefixes K) (t : 
       if rule == .preserve && isTemperature u0 && u1.offset != 0 && u0.offset == 0
           && (reprU u0 == "K" || reprU u0 == "R") then .error .UnitOperationError
       else
+        -- floor-division of operands that have no common unit uses the quotient rule
+        let rule := rule.effective (u0.dim != u1.dim)
         -- rescaling of the second operand
         let step : Except Err (UnitV K × UnitV K × K × Option Bool) :=
           if rule.converts && !ueq u0 u1 then
@@ -366,12 +376,17 @@ def powerCoeffs (ufunc : String) : Option (Int × Int) :=
 def powerMap (ufunc : String) (n : Nat) : Option Int :=
   (powerCoeffs ufunc).map fun c => c.1 * n + c.2
 
-/-- the count `_apply_power_mapping` feeds to `POWER_MAPPING`: `in_shape[axis]` when an `axis`
-    keyword was passed, else `in_size` (the whole array) -/
-def reduceCount (shape : List Nat) (axisKw : Option Nat) : Nat :=
+/-- the `axis` keyword of a `reduce` call: not passed, `axis=None`, or an index -/
+inductive AxisKw | absent | none | idx (a : Nat)
+deriving DecidableEq, Repr
+
+/-- the count `_apply_power_mapping` feeds to `POWER_MAPPING`: `axis = kwargs.get("axis", 0)`;
+    `in_shape[axis]`, or `in_size` (the whole array) for an explicit `axis=None` -/
+def reduceCount (shape : List Nat) (axisKw : AxisKw) : Nat :=
   match axisKw with
-  | some a => shape.getD a 1
-  | none => shape.foldl (· * ·) 1
+  | .absent => shape.getD 0 1
+  | .idx a => shape.getD a 1
+  | .none => shape.foldl (· * ·) 1
 
 /-- the unary branch (one input; also `reduce` / `accumulate` of binary ufuncs): the argument
     the kernel receives and `(mul, unit)`.  `n` is `inp.size` (or `inp.shape[axis]`). -/
@@ -408,19 +423,14 @@ def UOut.value (o : UOut K) (F : K → K) (x : K) : K :=
     | none => x
   o.mul * F x'
 
-/-- the `out=` fix-up of `__array_ufunc__` (array.py:2030-2034).  When an `out` array was given
-    (in-place operators pass the left operand) and the rule returned a coefficient `mul ≠ 1`, the
-    code calls `multiply(out, mul, out=out)` on the *unyt* array: that re-enters `__array_ufunc__`
-    with `out` — still labelled with its old unit — and the bare number `mul`.  The inner call
-    multiplies the buffer and computes `_multiply_units(oldUnit, dimensionless)`; if that yields a
-    coefficient `≠ 1` again it re-enters itself with the same operands, without end
-    (`RecursionError`).  `some f`: the buffer was multiplied by `f`; `none`: no termination. -/
-def outFixup (pre : Prefixes K) (t : Lut K) (oldUnit : UnitV K) (mul : K) : Except Err (Option K) :=
-  if mul == 1 then .ok (some 1)
-  else
-    match multiplyUnits pre t oldUnit UnitV.dimensionless with
-    | .error e => .error e
-    | .ok (m', _) => if m' == 1 then .ok (some mul) else .ok none
+/-- the `out=` fix-up of `__array_ufunc__`: when an `out` array was given (in-place operators pass
+    the left operand) and the rule returned a coefficient `mul ≠ 1`, the raw buffer is scaled,
+    `multiply(out_func, mul, out=out_func)` — a plain ndarray operation that does not re-enter the
+    dispatcher (since fix 8405e15; before it `multiply(out, mul, out=out)` dispatched on the out
+    array's stale unit and could recurse without end).  `some f`: the buffer was multiplied by `f`;
+    `none` would be non-termination. -/
+def outFixup (_pre : Prefixes K) (_t : Lut K) (_oldUnit : UnitV K) (mul : K) : Except Err (Option K) :=
+  if mul == 1 then .ok (some 1) else .ok (some mul)
 
 /-- `unyt_array.dot(b)`: the unit is `self.units * b.units` (no simplification), the numbers
     are `ndarray.dot` of the raw data -/
